@@ -14,7 +14,8 @@ META = {
                    'by an index bound not larger than the declared table length; (4) "not positive -> default" decisions '
                    'compare the sign-extended atoi result with a signed predicate; (5) the env array is sized by the same '
                    'worker count that bounds the creation loop, each worker records the rank it was created with, and the '
-                   'finalisation path re-obtains the env after migrating.',
+                   'finalisation path re-obtains the env after migrating.'
+                   " C15.6: every loop of the inlined CPU-list parser and of the fill code has a loop-carried cursor or counter that the exit test reads and that grows by at least one on every way round the loop (necessary for 'no hang on malformed input').",
     'not_decided': 'behaviour over arbitrary init/fini histories, actual worker counts at run time, hangs caused by the '
                    'environment (only aborts are decided)',
     'assumptions': ['getenv is the only channel for the configuration variables'],
